@@ -10,6 +10,7 @@ PROP = "C13"
 COQ_IMPORTS = ["Cache"]
 COQ_FN = "Cache.run_both"
 IMPL = "c13_impl.py"
+IMPL_JOBS = 12
 RULE = ("histories of 1..60 operations (call / finish of a blocked body / drop instance+gc / dirty / clock tick) on "
         "alru_cache (plain function or method; default key or key_fn in {first arg, sum mod m, constant}; maxsize in "
         "{1,2,3,128}), acached_per_instance (1-3 instances) and alazy_constant (ttl in {0,5,10,100}, scripted utime); "
@@ -17,8 +18,8 @@ RULE = ("histories of 1..60 operations (call / finish of a blocked body / drop i
         "every call is one spelling (how many positionals, which keywords, defaults omitted or not, keyword order) of a "
         "logical argument tuple from a key space of <= 5; 25% blocking bodies (overlap), 15% raising bodies; 20% of "
         "cases carry malformed calls / ops (missing, surplus, duplicate arguments, stray finishes, maxsize <= 0, "
-        "clock at 0 or running backwards); thorough tier adds the exhaustive product of all spelling pairs of six "
-        "signatures.  distinct = different case after dropping meta; non-trivial = the reference cache sees >= 1 hit, "
+        "clock at 0 or running backwards); both tiers add histories a, b1..bn over all spellings of six signatures (thorough: every a, so every ordered "
+        "pair of spellings meets).  distinct = different case after dropping meta; non-trivial = the reference cache sees >= 1 hit, "
         ">= 1 miss and (alru) >= 1 eviction / (per-instance) >= 2 instances or a drop / (lazy) a dirty- or ttl-forced recomputation")
 TRUSTED = ["qcore.caching.LRUCache / get_args_tuple / get_kwargs_defaults (compiled qcore from the venv) are modelled in Cache.v "
            "and validated only by this correspondence",
@@ -259,16 +260,18 @@ EXH_SIGS = [
 
 
 def exhaustive_cases():
+    """For each of six signatures, each wrapper kind and each spelling a: the history a, b1, ..., bn over *all*
+    spellings b of all logical argument tuples (cache large enough to hold everything): every ordered pair of
+    spellings meets in some history, the first one cached when the second arrives."""
     cs = []
     for sig in EXH_SIGS:
         sp = all_spellings(sig)
         for kind, target in (("alru", "fn"), ("alru", "method"), ("inst", None)):
-            # chunks of spelling pairs: each case is the history c1 c2 c1' c2' ... on a fresh cache of ample size,
-            # arranged so that every ordered pair of spellings occurs adjacent in some case
-            pairs = list(itertools.product(range(len(sp)), repeat=2))
-            for a, b in pairs:
-                inst = 0 if kind == "inst" or target == "method" else None
-                ops = [_call(0, sp[a][0], sp[a][1], False, None, inst), _call(1, sp[b][0], sp[b][1], False, None, inst)]
+            inst = 0 if kind == "inst" or target == "method" else None
+            for a in range(len(sp)):
+                order = [a] + [b for b in range(len(sp)) if b != a]
+                ops = [_call(j, sp[b][0], sp[b][1], False, None, inst) for j, b in enumerate(order)]
+                ops.append(_call(len(order), sp[a][0], sp[a][1], False, None, inst))
                 if kind == "alru":
                     c = {"kind": "alru", "target": target, "km": "default", "maxsize": 128, "sig": sig, "ops": ops}
                 else:
@@ -279,13 +282,10 @@ def exhaustive_cases():
 
 
 def gen_cases(rng, tier):
-    n = 500 if tier == "quick" else 7000
+    n = 500 if tier == "quick" else 12000
     cs = [gen_case(rng) for _ in range(n)]
-    if tier != "quick":
-        cs += exhaustive_cases()
-    else:
-        ex = exhaustive_cases()
-        cs += rng.sample(ex, 150)
+    ex = exhaustive_cases()
+    cs += ex if tier != "quick" else rng.sample(ex, 40)
     for c in cs:
         c["tree"] = case_tree(c)
     return cs
@@ -515,6 +515,14 @@ def walk(c, impl_rs=None, body_runs=None):
     tag = kind if kind != "alru" else "alru:%s:%s" % (c["km"] if isinstance(c["km"], str) else "sum", c["target"])
     producers = {}     # value -> (call op) that produced it
     spell_of = {}      # producer id -> spelling
+    # LRU-order clauses are only attributable when the lookups and stores seen so far were keyed the way the reference
+    # keys them.  Two bodies that overlap (one pending when the other starts) under *different spellings* are the one
+    # situation in which a key construction that distinguishes spellings can diverge from the reference silently
+    # (both miss legitimately, the stores land in different / shared entries); deviations after that are qualified.
+    taint = [False]
+    pend_spell = {}    # (id, inst) -> spelling of pending calls
+    def q(site):
+        return ("after-overlapping-respelled-misses:" + site) if taint[0] else site
     ran = set(body_runs or [])
 
     def finding(clause, site, msg, k):
@@ -610,7 +618,8 @@ def walk(c, impl_rs=None, body_runs=None):
                 R.inst.pop(o["inst"], None)
                 R.drops += 1
         elif name == "finish":
-            p = R.pending.pop((o["id"], o.get("inst")), None)
+            p = R.pending.pop((o["id"], o.get("inst") if kind == "inst" else None), None)
+            pend_spell.pop((o["id"], o.get("inst") if kind == "inst" else None), None)
             if p is None:
                 want = "RNoop"
             elif p[1][0] == "ret":
@@ -642,11 +651,14 @@ def walk(c, impl_rs=None, body_runs=None):
                     want = {"RHit": [e[1]]}
                 else:
                     R.misses += 1
+                    if binds and any(sp != spell_of[o["id"]] for sp in pend_spell.values()):
+                        taint[0] = True
                     if not binds:
                         want = "RTypeError"
                     elif o["bl"]:
                         want = "RPending"
-                        R.pending[(o["id"], o.get("inst"))] = (key, o["body"])
+                        R.pending[(o["id"], o.get("inst") if kind == "inst" else None)] = (key, o["body"])
+                        pend_spell[(o["id"], o.get("inst") if kind == "inst" else None)] = spell_of[o["id"]]
                     elif o["body"][0] == "ret":
                         want = {"RMiss": [o["body"][1]]}
                         R.put(o.get("inst"), key, o["body"][1], o["id"])
@@ -672,13 +684,13 @@ def walk(c, impl_rs=None, body_runs=None):
                             if kind == "inst":
                                 finding("vanish-with-instance", "hit-after-drop", "call %d received %s computed by call %d before the instance was dropped" % (o["id"], v, src), k)
                             else:
-                                finding("size-and-lru", "hit-on-evicted-key", "call %d received %s (from call %d) although an LRU cache of size %d has evicted that key"
+                                finding("size-and-lru", q("hit-on-evicted-key"), "call %d received %s (from call %d) although an LRU cache of size %d has evicted that key"
                                         % (o["id"], v, src, c["maxsize"]), k)
                         elif e[1] != v:
-                            finding("refines-reference", "hit-stale-value", "returned %s (from call %d), the reference cache holds the later value %s for key %s" % (v, src, e[1], key), k)
+                            finding("refines-reference", "%s:hit-stale-value" % ("same-spelling" if spell_of.get(e[2]) == spell_of.get(src) else "respelled-args"), "returned %s (from call %d), the reference cache holds the later value %s for key %s" % (v, src, e[1], key), k)
                     elif e is not None:
                         same = spell_of.get(e[2]) == spell_of[o["id"]]
-                        finding("refines-reference", "%s:body-rerun-on-cached-args" % ("same-spelling" if same else "respelled-args"),
+                        finding("refines-reference", ("%s:body-rerun-on-cached-args" % q("same-spelling")) if same else "respelled-args:body-rerun-on-cached-args",
                                 "call %d %s has the same normalised arguments/key %s as call %d %s whose value %s the reference cache still holds, "
                                 "but it was not served from the cache (%s)" % (o["id"], _show(o), key, e[2], spell_of.get(e[2]), e[1], got), k)
                     elif binds and o["id"] not in ran and gn in ("RRaise", "RMiss", "RDone", "RNone", "RPending"):
@@ -719,6 +731,9 @@ def _key_of_id(R, c, cid):
 
 
 def monitors(c, io, build):
+    if "out" not in io:
+        return [dict(clause="refines-reference", site="%s:%s" % (c["kind"], next(iter(io)).lower()),
+                     msg="the history did not run to completion: %s" % json.dumps(io)[:200])]
     out = io["out"]
     if out == "OBadMaxsize":
         if c["kind"] == "alru" and c["maxsize"] <= 0:
@@ -754,6 +769,8 @@ KEY_DEFECT_OPEN = _open_known()
 
 def compare(c, m, io):
     fixed, src = m[""]
+    if "out" not in io:
+        return "the implementation did not complete the history: %s" % json.dumps(io)[:100]
     out = io["out"]
     order = io.get("order")
     if order is not None and order != sorted(order):
